@@ -203,6 +203,10 @@ def hypergraph_static(level="full"):
     A("H.set_node_attributes({9: 7, 1: 8, 3: 9}, name='c')")
     A("H.set_node_attributes({9: {'c': 2}, 1: {'c': 1}, 3: {'d': 0}})")
     A("H.__setitem__('name', 'x')")
+    # attribute names that are not strings (any hashable is accepted): nothing may pass them on as keyword arguments
+    A("H.__setitem__(2024, 'x')")
+    A("H.add_nodes_from([(1, {0: 'z', (1, 2): 3}), 2])")
+    A("H.set_edge_attributes({0: {7: 1}, 2: {(1, 2): 0}})")
     # the network's own views and accessor results as arguments (filtered views, member / membership sets)
     A("H.remove_edges_from(H.edges.singletons())")
     A("H.remove_edges_from(H.edges.filterby('size', 2))")
@@ -585,6 +589,10 @@ def dihypergraph_static():
     A("H.set_node_attributes({9: 7, 1: 8, 3: 9}, name='c')")
     A("H.set_node_attributes({9: {'c': 2}, 1: {'c': 1}, 3: {'d': 0}})")
     A("H.__setitem__('name', 'x')")
+    # attribute names that are not strings (any hashable is accepted): nothing may pass them on as keyword arguments
+    A("H.__setitem__(2024, 'x')")
+    A("H.add_nodes_from([(1, {0: 'z', (1, 2): 3}), 2])")
+    A("H.set_edge_attributes({0: {7: 1}, 2: {(1, 2): 0}})")
     # the history continues on a twin / a derived network of the same class
     A("become(H, H.copy())")
     A("become(H, repickle(H))")
@@ -745,6 +753,10 @@ def simplicial_static():
     A("H.set_node_attributes({9: 7, 1: 8, 3: 9}, name='c')")
     A("H.set_node_attributes({9: {'c': 2}, 1: {'c': 1}, 3: {'d': 0}})")
     A("H.__setitem__('name', 'x')")
+    # attribute names that are not strings (any hashable is accepted): nothing may pass them on as keyword arguments
+    A("H.__setitem__(2024, 'x')")
+    A("H.add_nodes_from([(1, {0: 'z', (1, 2): 3}), 2])")
+    A("H.set_edge_attributes({0: {7: 1}, 2: {(1, 2): 0}})")
     return ops
 
 
